@@ -2,6 +2,7 @@
   Engine `mutesrace` (C02): a real writer goroutine racing one real Mutes call.
     race <k>  -> <during> <after> <active: id=name=value,…> <alert: name=value>
     quiet <k> -> <after> <active> <alert>
+    snaprace <k> <n> -> <seam|timed> <pre> <post> <loaded>   (Snapshot racing an incompatible edit; the snapshot loaded into a fresh store)
   `after` is the answer of the call made when both goroutines have returned: by
   AM.Silence.mutesI_next_call_exact it is the brute-force verdict over the store as dumped
   (equality matchers only; evaluated here).  `during` may be either answer when the racing
@@ -53,6 +54,19 @@ def step (σ : St) (op obs : List String) : St × List Msg :=
         ++ (if ok then [] else [Msg.propfail "merge_monotone" "merge-overwrites-concurrent-newer"
               s!"the id holds {final} (update time relative to the stored version) after a Merge of an older edit (+{bu}) raced an API expiry (+{eu}): the merged older version replaced the newer one"])
         ++ [.tag "mergerace"])
+  | ["snaprace", _, _], [mode, pre, post, loaded] =>
+    -- AM.CrashFS.snapshot_loads_one_state: the snapshot holds the store as it was before the racing edit or after it.
+    -- digests: <raced silence>,<its replacement>,<active>,<stored>
+    let mixed := loaded ≠ pre ∧ loaded ≠ post
+    let shape : List Msg := match pre.splitOn ",", post.splitOn "," with
+      | [po, pn, _, _], [qo, qn, _, _] =>
+        if po = "active" ∧ pn = "missing" ∧ qo = "expired" ∧ qn = "active" then []
+        else [.diff "snaprace.edit" "active,missing -> expired,active" s!"{pre} -> {post}"]
+      | _, _ => [.diff "parse" "?" "snaprace"]
+    (σ, (if mixed then [Msg.propfail "snapshot_loads_one_state" "snapshot-mixed-state"
+              s!"a snapshot taken while a silence was edited ({mode}) loads as {loaded} (raced silence, replacement, active, stored): neither the store before the edit ({pre}) nor after it ({post})"]
+         else [])
+        ++ shape ++ [.tag (if loaded = pre then "snaprace:before-edit" else if loaded = post then "snaprace:after-edit" else "snaprace:mixed")])
   | ["quiet", _], [after, active, alert] =>
     (σ, verdict "mutes_eq_bruteforce" after active alert ++ [.tag "quiet"])
   | _, _ => (σ, [.diff "parse" "?" (" ".intercalate op)])
